@@ -4,7 +4,6 @@ import (
 	"errors"
 	"fmt"
 	"math/rand"
-	"sort"
 	"strings"
 	"time"
 
@@ -37,6 +36,9 @@ type Proc struct {
 	Arch   distsys.MPCalArchetype
 	Locals []Local
 	Config func(p *Proc) []distsys.MPCalContextConfigFn
+	// ConstLocals: spec-local variables that never change and have no Go counterpart
+	// (e.g. a value passed for a mapped ref parameter): spec name -> TLA+ text
+	ConstLocals map[string]string
 	// HasStack: the spec has a `stack` variable for this process (archetype calls procedures);
 	// StackProj projects the runtime's .stack value to the spec's representation.
 	HasStack  bool
@@ -281,51 +283,24 @@ func (p *Proc) Local(res string) tla.Value {
 	return p.ctx.IFace().ReadArchetypeResourceLocal(res)
 }
 
-// DumpState prints the current state as a TLA+ record of all spec variables.
+// DumpState prints the current state (gate-based execution) as a TLA+ record of all spec variables.
 func (s *System) DumpState(extra map[string]string) string {
-	var parts []string
-	// pc
-	pcs := make([]string, 0, len(s.Procs))
-	for _, p := range s.Procs {
-		pcs = append(pcs, fmt.Sprintf("(%s :> %q)", p.Self.String(), p.PC))
-	}
-	parts = append(parts, "pc |-> ("+strings.Join(pcs, " @@ ")+")")
-	for _, n := range s.W.Names {
-		parts = append(parts, n+" |-> "+s.W.G[n].TLA())
-	}
-	// locals grouped by spec variable name
-	type kv struct{ self, val string }
-	locals := map[string][]kv{}
-	var names []string
-	for _, p := range s.Procs {
+	st := &State{G: s.W.G, P: make([]PState, len(s.Procs))}
+	for i, p := range s.Procs {
 		if p.Actor != nil {
-			for n, v := range p.Actor.Locals {
-				if _, ok := locals[n]; !ok {
-					names = append(names, n)
-				}
-				locals[n] = append(locals[n], kv{p.Self.String(), v.String()})
-			}
+			st.P[i] = PState{PC: p.PC, Locals: p.Actor.Locals}
 			continue
 		}
+		m := map[string]tla.Value{}
 		for _, l := range p.Locals {
-			if _, ok := locals[l.Spec]; !ok {
-				names = append(names, l.Spec)
-			}
-			locals[l.Spec] = append(locals[l.Spec], kv{p.Self.String(), p.Local(l.Res).String()})
+			m[l.Res] = p.Local(l.Res)
 		}
-	}
-	sort.Strings(names)
-	for _, n := range names {
-		var es []string
-		for _, e := range locals[n] {
-			es = append(es, fmt.Sprintf("(%s :> %s)", e.self, e.val))
+		if p.HasStack {
+			m[".stack"] = p.Local(".stack")
 		}
-		parts = append(parts, n+" |-> ("+strings.Join(es, " @@ ")+")")
+		st.P[i] = PState{PC: p.PC, Locals: m}
 	}
-	for k, v := range extra {
-		parts = append(parts, k+" |-> "+v)
-	}
-	return "[" + strings.Join(parts, ", ") + "]"
+	return s.Dump(st)
 }
 
 // Enabled lists the processes that may still take steps.
